@@ -692,7 +692,7 @@ def vals(a):
     return np.asarray(a.values, float).tolist() if isinstance(a, xr.DataArray) else repr(a)[:200]
 
 
-def check_views(ctx, mgr, exp, desc, when, canonical_order=True):
+def check_views(ctx, mgr, exp, desc, when, key_order=None):
     """get_counts(), get_table() and -- for a single table -- format_table() of the manager `mgr` report the count exp[label] under
     every label.  -> True when all views agree"""
     desc = dict(desc, when=when)
@@ -729,9 +729,16 @@ def check_views(ctx, mgr, exp, desc, when, canonical_order=True):
         got["total_count"] = float(df.loc["Total", "Total"])
         want = {key: float(exp[key]) for key in COUNT_KEYS}
         if got != want:
-            # known finding (unchanged code): format_table reads the table by POSITION, assuming the key order of _get_counts
-            ctx.violation(f"format_table() shows counts in the wrong cell of the 2x2 table ({when})", desc, want, got,
-                          finding_key=None if canonical_order else "format-table-by-position")
+            # known finding (unchanged code): format_table reads the table by POSITION (entries 0, 2, 3, 1 of the dict's own order), assuming
+            # the key order of _get_counts.  Only exactly that frame, for a dict in another key order, is the known deviation.
+            known = None
+            if key_order is not None and list(key_order[:4]) != COUNT_KEYS[:4]:
+                pos = {"tp_count": float(exp[key_order[0]]), "fp_count": float(exp[key_order[2]]), "fn_count": float(exp[key_order[3]]),
+                       "tn_count": float(exp[key_order[1]])}
+                pos["total_count"] = pos["tp_count"] + pos["fp_count"] + pos["fn_count"] + pos["tn_count"]
+                if got == pos:
+                    known = "format-table-by-position"
+            ctx.violation(f"format_table() shows counts in the wrong cell of the 2x2 table ({when})", dict(desc, key_order=key_order), want, got, finding_key=known)
             ok = False
     return ok
 
@@ -763,7 +770,7 @@ def user_dict_views(ctx, i, use_model=True):
     if st != "ok":
         ctx.violation("BasicContingencyManager raises on a counts dict", desc, "manager", mgr)
         return
-    check_views(ctx, mgr, cells, desc, "manager built from a counts dict", canonical_order=(keys[:4] == COUNT_KEYS[:4]))
+    check_views(ctx, mgr, cells, desc, "manager built from a counts dict", key_order=keys)
     # tie: the regenerated _make_xr_table / format_table (site C08.views) on the dict's item list against the real table and frame
     if use_model and not dims:
         m = ctx.model("c08_views", enc_list([enc_list([enc_str(k), enc_num(float(cells[k]))]) for k in keys]))
